@@ -243,19 +243,22 @@ func mk(g) {
 }
 `
 
-// cloneSrc adds 40 small functions that the driver calls for the first time while clones are
-// being made (every first call loads code into the parent VM).
+// cloneSrc adds 40 small functions with a nested function each; the driver imports a module and
+// calls them for the first time while clones are being made (every first call of a nested function
+// loads code into the parent VM, the import stores a module in it).
 func cloneSrc(withGate bool) string {
 	var b strings.Builder
 	b.WriteString(cloneSrcHead)
 	for i := 0; i < 40; i++ {
-		fmt.Fprintf(&b, "func h%d(x) { return x + %d }\n", i, i)
+		// the nested function's code is loaded into the VM by the first call, not by Run
+		fmt.Fprintf(&b, "func h%d(x) { f := func(y) { return y + %d }; return f(x) }\n", i, i)
 	}
 	b.WriteString("func driver(g) {\n")
 	if withGate {
 		b.WriteString("\tgate()\n")
 	}
-	b.WriteString("\ts := g\n")
+	b.WriteString("\timport c09moda\n")
+	b.WriteString("\ts := g + c09moda.f(1) - 7\n")
 	for i := 0; i < 40; i++ {
 		fmt.Fprintf(&b, "\ts = h%d(s)\n", i)
 	}
@@ -279,7 +282,7 @@ func newCloneParent(e *env, withGate bool) (*cloneParent, error) {
 			return object.Nil
 		})
 	}
-	cfg := risor.NewConfig(risor.WithGlobals(globals))
+	cfg := risor.NewConfig(risor.WithGlobals(globals), risor.WithImporter(e.localImp))
 	ast, err := parser.Parse(ctx, cloneSrc(withGate))
 	if err != nil {
 		return nil, err
@@ -314,7 +317,7 @@ func newEnv(c CaseData, dir string, kinds map[string]bool) *env {
 			e.setupErr = what + ": " + err.Error()
 		}
 	}
-	if kinds["import"] {
+	if kinds["import"] || kinds["clone"] {
 		names := risor.NewConfig(risor.WithGlobals(map[string]any{"ctr": &Counter{}})).GlobalNames()
 		e.localImp = importer.NewLocalImporter(importer.LocalImporterOptions{GlobalNames: names, SourceDir: dir})
 		e.fsImp = importer.NewFSImporter(importer.FSImporterOptions{GlobalNames: names, SourceFS: os.DirFS(dir)})
